@@ -419,9 +419,10 @@ def run(ck: Check):
         correspond("shipped-files", datas, reals)
         ck.cover(dist={"shipped_files": len(files)})
     ck.cover(dist={"unmodelled_skipped": unmodelled})
-    ck.partial.append("axml_roundtrip is proved at the level of the chunk event stream (events of a well-formed tree -> tree) and of "
-                      "single pool strings / length prefixes / chunk fields; the composition over whole files (offset tables, chunk "
-                      "sizes) and everything inside lxml are covered by the correspondence and the oracle only")
+    ck.partial.append("axml_roundtrip (whole-file round trip for every well-formed document and encoding choice), pool_roundtrip, utf8/utf16 "
+                      "round trips and chunk_events are proved about the model and the file-level specification Spec/AxmlFile.lean; what lxml "
+                      "and CPython's codecs do is modelled (transcribed), so the agreement of the model with the real code on those parts "
+                      "rests on the correspondence and the oracle")
     ck.assumptions.append("lxml (Element, set, text/tail, tostring), CPython's utf-8 / utf-16-le decoders with errors='replace', re and "
                           "str methods are modelled, not verified; float / dimension / fraction renderings are abstract here (C27)")
     ck.notes.append("model describes the tree with fixes/C26-text-chunks.diff and fixes/C26-utf16-bom.diff applied")
